@@ -3,7 +3,7 @@
    real mem_hdr, Page = 4 units), checks NodesOK, that every step is a P-step (Refines) and laws; prints every edge. *)
 EXTENDS MemHdrImpl, TLC, Json
 CONSTANTS MaxOff, MaxWrites, CopyLens, ContigGaps, DumpEdges
-St(ns, S, n) == [nodes |-> [i \in DOMAIN ns |-> <<ns[i].s, ns[i].e>>], lo |-> Lo(ns), hi |-> Hi(ns), nextW |-> n]
+St(ns, S, n) == [nodes |-> [i \in DOMAIN ns |-> <<ns[i].s, ns[i].e>>], lo |-> Lo(ns), hi |-> Hi(ns), nextW |-> n, segs |-> S]
 Edge(a) == DumpEdges => PrintT(<<"EDGE", ToJson([s |-> St(nodes, segs, nextW), a |-> a, t |-> St(nodes', segs', nextW')])>>)
 MCNext ==
     \/ \E off \in 0..(MaxOff - 1) : \E len \in 1..(MaxOff - off) :
